@@ -68,9 +68,21 @@ impl ShardAssignment {
             AssignmentStrategy::LoadBased => self.assign_load_based(shard_id).await?,
         };
 
-        // Update assignment
+        // Update assignment - unless another caller assigned the shard to a node that can
+        // take it while this one was choosing: a shard has one owner at a time, and both
+        // callers must be told the same one.
         {
             let mut assignments = self.assignments.write().await;
+            if let Some(existing) = assignments.get(shard_id) {
+                if existing != &node_id {
+                    if let Some(node) = self.node_registry.get_node(existing).await {
+                        if node.can_accept_writes() {
+                            debug!("Shard {} was assigned to node {} meanwhile", shard_id, existing);
+                            return Ok(existing.clone());
+                        }
+                    }
+                }
+            }
             assignments.insert(shard_id.to_string(), node_id.clone());
         }
 
